@@ -102,10 +102,24 @@ theorem idAndChecks_ok {H : Bytes → Bytes} {row : VGen.VersionRow} {e e' : PDU
       obtain ⟨h1, h2⟩ := populate_ok hp
       exact ⟨h1, h2, hc⟩
 
+theorem resetID_same (fmt : Fmt) (e0 : PDU) : SameButID e0 (resetID fmt e0) := by
+  unfold resetID SameButID
+  split <;> rfl
+
+theorem resetID_empty {fmt : Fmt} (hv : fmt ≠ .v1) (e0 : PDU) : (resetID fmt e0).f.eventIDRaw = [] := by
+  unfold resetID
+  rw [if_neg (by simpa using hv)]
+
+theorem sameButID_trans {a b c : PDU} (h1 : SameButID a b) (h2 : SameButID b c) : SameButID a c := by
+  unfold SameButID at *
+  rw [h2, h1]
+
+/-- The trusted constructors: the struct decoding and the room-ID check of `construct`; the V2 / V3 constructors then
+    drop whatever the decoding put into the stored ID and compute it (the reference hash of the event). -/
 theorem trustedCore_ok {H : Bytes → Bytes} {row : VGen.VersionRow} {ver : Bytes} {red : Bool} {text : Bytes} {j : JVal} {e : PDU}
     (h : trustedCore H row ver red text j = .ok e) :
     ∃ fmt e0, fmtOfName row.newEventFromTrustedJSONFunc = some fmt ∧ construct fmt ver red text j = .ok e0 ∧
-      SameButID e0 e ∧ (e0.fmt ≠ .v1 → e0.f.eventIDRaw = [] → referenceID H row e0.ver (.obj e0.obj) = .ok e.f.eventIDRaw) := by
+      SameButID e0 e ∧ (e0.fmt ≠ .v1 → referenceID H row e0.ver (.obj e0.obj) = .ok e.f.eventIDRaw) := by
   unfold trustedCore at h
   split at h
   · cases h
@@ -114,7 +128,17 @@ theorem trustedCore_ok {H : Bytes → Bytes} {row : VGen.VersionRow} {ver : Byte
     · cases h
     · rename_i e0 hc
       obtain ⟨h1, h2⟩ := populate_ok h
-      exact ⟨fmt, e0, hf, hc, h1, h2⟩
+      obtain ⟨_, _, _, hfmt0, _⟩ := construct_ok hc
+      refine ⟨fmt, e0, hf, hc, sameButID_trans (resetID_same fmt e0) h1, ?_⟩
+      intro hne
+      have hne' : fmt ≠ .v1 := by rw [← hfmt0]; exact hne
+      have hr := resetID_same fmt e0
+      have hfm : (resetID fmt e0).fmt = e0.fmt := by rw [hr]
+      have hvr : (resetID fmt e0).ver = e0.ver := by rw [hr]
+      have hob : (resetID fmt e0).obj = e0.obj := by rw [hr]
+      have := h2 (by rw [hfm]; exact hne) (resetID_empty hne' e0)
+      rw [hvr, hob] at this
+      exact this
 
 theorem lastSome_none_iff (p : Bytes × JVal → Bool) (kvs : EventParse.Obj) : lastSome p kvs = none ↔ ∀ kv ∈ kvs, p kv = false := by
   constructor
